@@ -1,3 +1,5 @@
 pub mod common;
 pub mod num;
 pub mod props;
+pub mod svm;
+pub mod world;
